@@ -45,14 +45,14 @@ func (e *Env) call(fr *Frame, c *ssa.CallCommon, instr ssa.Value, st *State) Val
 	}
 	if c.IsInvoke() {
 		recv := e.get(fr, c.Value, st)
-		e.ghostAt(fr, "call", c.Method.Name(), append([]Value{recv}, args...), st)
+		e.ghostAt(fr, "call", c.Method.Name()+"|"+recvTypeName(c.Value.Type())+"."+c.Method.Name(), append([]Value{recv}, args...), st)
 		return e.invoke(fr, recv, c.Method, args, rt, st)
 	}
 	switch f := c.Value.(type) {
 	case *ssa.Builtin:
 		return e.builtin(fr, f, c, args, rt, st)
 	case *ssa.Function:
-		e.ghostAt(fr, "call", f.Name(), args, st)
+		e.ghostAt(fr, "call", staticCallNames(f), args, st)
 		return e.callStatic(fr, f, nil, args, rt, st)
 	}
 	fv := e.get(fr, c.Value, st)
@@ -629,7 +629,7 @@ func (e *Env) runDeferred(fr *Frame, d deferRec, st *State) {
 	c := d.call
 	if c.IsInvoke() {
 		recv := d.fnv
-		e.ghostAt(fr, "call", c.Method.Name(), append([]Value{recv}, d.args...), st)
+		e.ghostAt(fr, "call", c.Method.Name()+"|"+recvTypeName(d.call.Value.Type())+"."+c.Method.Name(), append([]Value{recv}, d.args...), st)
 		e.invoke(fr, recv, c.Method, d.args, c.Signature().Results(), st)
 		return
 	}
@@ -640,7 +640,7 @@ func (e *Env) runDeferred(fr *Frame, d deferRec, st *State) {
 		}
 		unsupp("deferred builtin %s", f.Name())
 	case *ssa.Function:
-		e.ghostAt(fr, "call", f.Name(), d.args, st)
+		e.ghostAt(fr, "call", staticCallNames(f), d.args, st)
 		e.callStatic(fr, f, nil, d.args, c.Signature().Results(), st)
 		return
 	}
@@ -963,4 +963,27 @@ func (c *SpecCtx) locOf(x *SExpr) *Ptr {
 		return nil
 	}
 	return &Ptr{Kind: base.Kind, Ref: base.Ref, Idx: base.Idx, Root: base.Root, Path: append(append([]int(nil), base.Path...), i)}
+}
+
+
+// recvTypeName is the bare name of a (pointer to a) named type, "" otherwise.
+func recvTypeName(t types.Type) string {
+	if p, ok := t.Underlying().(*types.Pointer); ok {
+		t = p.Elem()
+	}
+	if p, ok := t.(*types.Pointer); ok {
+		t = p.Elem()
+	}
+	if n, ok := t.(*types.Named); ok {
+		return n.Obj().Name()
+	}
+	return ""
+}
+
+// staticCallNames: "name" and, for a method, "Recv.name" (alternatives for `ghost at call`).
+func staticCallNames(f *ssa.Function) string {
+	if r := f.Signature.Recv(); r != nil {
+		return f.Name() + "|" + recvTypeName(r.Type()) + "." + f.Name()
+	}
+	return f.Name()
 }
